@@ -14,12 +14,35 @@
   the text the decoder renders is read back by the encoder as the same pair (`bigfloat_text_roundtrip`), and the bytes the encoder writes
   denote that pair under RFC 8949 §3.4.4 (`bigfloat_bytes_roundtrip`). D79 (a bignum mantissa came back as garbled text) lived here.
 
+  Proved here (MessagePack, the data-model core): Model JV.Model.Msgpack.encode = what `encode_msgpack` writes for null / bool /
+  every int64 and uint64 (positive fixint, uint8/16/32/64, negative fixint, int8/16/32/64) / doubles (float32 when exact, else float64)
+  / UTF-8 text (fixstr, str8/16/32) / byte strings (bin8/16/32) / arrays (fixarray, array16/32) / maps (fixmap, map16/32) at any
+  nesting — tied to the real encoder BYTE FOR BYTE by the `msgpack-encoder-model` correspondence stream (every integer-width and
+  length boundary up to 2^16 with both neighbours; 2^32-byte payloads are not run). For every such value with lengths below 2^32
+  (the widest length field of the format) the reference MessagePack decoder (JV.Spec.Msgpack, the one the real decoder is judged
+  by in C07) reads the bytes back as exactly that value and leaves any following bytes untouched (`msgpack_roundtrip`); the integer
+  ladder is covered for every integer in [-2^63, 2^64) by case split (`msgpack_int_head_roundtrip`, `msgpack_int_width`).
+  Not in the theorem: timestamps (ext -1), other ext types, bigint/bigdec strings (plain text in MessagePack), and what
+  the real encoder does for a length >= 2^32 (it writes NO head at all - the model reproduces that, `OKm` excludes it).
+
+  Proved here (UBJSON, the data-model core): Model JV.Model.Ubjson.encode = what `encode_ubjson` writes for null / bool / every
+  int64 ('U' 'i' 'I' 'l' 'L'; an integer above 2^63-1 is refused by both) / doubles ('d' when exact, else 'D') / text ('S' + length
+  as an integer item) / byte strings (the typed array `[$U#n`) / counted arrays `[#n` / counted objects `{#n` at any nesting -
+  tied to the real encoder BYTE FOR BYTE (and refusal for refusal) by the `ubjson-encoder-model` stream. For every such value with
+  lengths below 2^63 the reference UBJSON decoder (JV.Spec.Ubjson, the one used in C07) reads the bytes back as the documented image
+  (a byte string comes back as the array of its bytes; everything else as itself) and leaves what follows untouched
+  (`ubjson_roundtrip`); integers by case split over [-2^63, 2^63) (`ubjson_int_roundtrip`), lengths over [0, 2^63)
+  (`ubjson_length_roundtrip`). Not in the theorem: high-precision numbers ('H', bigint/bigdec strings), indefinite containers
+  (the real encoder only writes them when driven event by event without a length).
+
   Decided per case on the real code, not proved: the other semantic tags, string packing (stringref; D26 was
-  found there and repaired), typed arrays, and the MessagePack / UBJSON / BSON round trips under
-  their documented mappings (see the check's streams).
+  found there and repaired), typed arrays, MessagePack timestamps, UBJSON high-precision numbers, and the BSON round trip under
+  its documented mapping (see the check's streams).
 -/
 import JV.Proofs.CborRoundtrip
 import JV.Proofs.BigFloat
+import JV.Proofs.MsgpackRoundtrip
+import JV.Proofs.UbjsonRoundtrip
 namespace JV.Props.C06
 open JV Model.Cbor Spec.Cbor
 
@@ -75,6 +98,107 @@ theorem bigfloat_render_encode_decode (m e : Int) (he : Model.BigFloat.fitsInt64
   obtain ⟨bytes, h1, h2⟩ := bigfloat_bytes_roundtrip m e he hlen []
   exact ⟨bytes, by simp [Model.BigFloat.encodeText, bigfloat_text_roundtrip, h1], by simpa using h2⟩
 
+/-! ### MessagePack -/
+
+/-- the documented mapping from the data-model core to what the reference decoders deliver (no tags on the core) -/
+abbrev toValue : CV → BV := toBV
+
+/-- encode then decode is the identity on the MessagePack image of the core, for ALL values (any nesting), whatever follows the item.
+    `OKm`: integers in [-2^63, 2^64), valid UTF-8 text, doubles on which the float32 shortcut is lossless
+    (`float32_shortcut_lossless` gives that outside the binary32-subnormal band), every length below 2^32. -/
+theorem msgpack_roundtrip (v : CV) (hv : Model.Msgpack.OKm v) (rest : Bytes) :
+    ∃ fuel, Spec.Msgpack.item fuel (Model.Msgpack.encode v ++ rest) = .ok (toValue v) rest :=
+  ⟨need v, Model.Msgpack.enc_dec v rest (need v) hv (Nat.le_refl _)⟩
+
+/-- … and more fuel never changes the answer -/
+theorem msgpack_roundtrip_any_fuel (v : CV) (hv : Model.Msgpack.OKm v) (rest : Bytes) (fuel : Nat) (hf : need v ≤ fuel) :
+    Spec.Msgpack.item fuel (Model.Msgpack.encode v ++ rest) = .ok (toValue v) rest :=
+  Model.Msgpack.enc_dec v rest fuel hv hf
+
+/-- every integer in [-2^63, 2^64) - positive fixint, uint8/16/32/64, negative fixint, int8/16/32/64, all ten rungs of the ladder by
+    case split, none sampled - is read back as itself -/
+theorem msgpack_int_head_roundtrip (i : Int) (hlo : -(2 ^ 63 : Int) ≤ i) (hhi : i < 2 ^ 64) (rest : Bytes) (fuel : Nat) :
+    Spec.Msgpack.item (fuel + 1) (Model.Msgpack.writeInt i ++ rest) = .ok (.int i "") rest :=
+  Model.Msgpack.item_int fuel i rest hlo hhi
+
+/-- the integer ladder never writes more than the value needs: 1, 2, 3, 5 or 9 bytes, chosen by magnitude -/
+theorem msgpack_int_width (i : Int) :
+    (Model.Msgpack.writeInt i).length =
+      if -32 ≤ i ∧ i ≤ 127 then 1 else if -128 ≤ i ∧ i ≤ 255 then 2 else if -32768 ≤ i ∧ i ≤ 65535 then 3
+      else if -2147483648 ≤ i ∧ i ≤ 4294967295 then 5 else 9 := by
+  unfold Model.Msgpack.writeInt
+  by_cases hv : i ≥ 0
+  · simp only [hv, if_true]
+    repeat' split
+    all_goals simp [Model.Msgpack.length_beBytes]
+    all_goals omega
+  · simp only [hv, if_false]
+    repeat' split
+    all_goals simp [Model.Msgpack.length_beBytes]
+    all_goals omega
+
+/-- text of any length below 2^32 (fixstr / str8 / str16 / str32 chosen by the ladder) is read back exactly -/
+theorem msgpack_text_roundtrip (s rest : Bytes) (hl : s.length < 2 ^ 32) (hv : Spec.Rfc8259.validUtf8 s = true) (fuel : Nat) :
+    Spec.Msgpack.item (fuel + 1) (Model.Msgpack.strHead s.length ++ s ++ rest) = .ok (.str s "") rest :=
+  Model.Msgpack.item_text fuel s rest hl hv
+
+/-- byte strings of any length below 2^32 (bin8 / bin16 / bin32) are read back exactly -/
+theorem msgpack_bytes_roundtrip (b rest : Bytes) (hl : b.length < 2 ^ 32) (fuel : Nat) :
+    Spec.Msgpack.item (fuel + 1) (Model.Msgpack.binHead b.length ++ b ++ rest) = .ok (.bytes b "") rest :=
+  Model.Msgpack.item_bytes fuel b rest hl
+
+/-- the array and map heads announce exactly the element count that was written, for every count below 2^32 -/
+theorem msgpack_container_heads (n : Nat) (hn : n < 2 ^ 32) (body : Bytes) (fuel : Nat) :
+    Spec.Msgpack.item (fuel + 1) (Model.Msgpack.arrHead n ++ body) = Spec.Msgpack.wrapArr (Spec.Msgpack.items fuel n body) ∧
+    Spec.Msgpack.item (fuel + 1) (Model.Msgpack.mapHead n ++ body) = Spec.Msgpack.wrapMap (Spec.Msgpack.members fuel n body) :=
+  ⟨Model.Msgpack.item_arrHead fuel n body hn, Model.Msgpack.item_mapHead fuel n body hn⟩
+
+/-- doubles: the 64-bit pattern comes back bit for bit (also through the float32 shortcut, when `DoubleOK`) -/
+theorem msgpack_double_roundtrip (b : Nat) (h : DoubleOK b) (rest : Bytes) (fuel : Nat) :
+    Spec.Msgpack.item (fuel + 1) (Model.Msgpack.encodeDouble b ++ rest) = .ok (.dbl b "") rest :=
+  Model.Msgpack.item_double fuel b rest h
+
+/-! ### UBJSON -/
+
+/-- the documented UBJSON mapping: everything itself, except that a byte string (written as the typed array `[$U#n …`) comes back
+    as the array of its bytes -/
+abbrev toValueUbjson : CV → BV := Model.Ubjson.toBVu
+
+/-- encode then decode is the documented mapping on the UBJSON image of the core, for ALL values (any nesting), whatever follows:
+    the bytes written start with a type marker `m`, and the reference decoder, having read `m`, delivers the value and leaves `rest`.
+    `OKu`: integers in [-2^63, 2^63) (UBJSON has no uint64; the real encoder refuses the rest, as the model's `representable` says),
+    valid UTF-8 text, doubles on which the float32 shortcut is lossless, lengths below 2^63. -/
+theorem ubjson_roundtrip (v : CV) (hv : Model.Ubjson.OKu v) (rest : Bytes) :
+    ∃ fuel m r, Model.Ubjson.encode v ++ rest = m :: r ∧ Spec.Ubjson.valueOf fuel m r = .ok (toValueUbjson v) rest := by
+  obtain ⟨m, r, he, _⟩ := Model.Ubjson.encode_cons v
+  have h := Model.Ubjson.enc_dec v rest (Model.Ubjson.needU v) hv (Nat.le_refl _)
+  rw [he] at h
+  exact ⟨Model.Ubjson.needU v, m, r ++ rest, by rw [he]; rfl, h⟩
+
+/-- … and more fuel never changes the answer -/
+theorem ubjson_roundtrip_any_fuel (v : CV) (hv : Model.Ubjson.OKu v) (rest : Bytes) (fuel : Nat) (hf : Model.Ubjson.needU v ≤ fuel) :
+    Model.Ubjson.item fuel (Model.Ubjson.encode v ++ rest) = .ok (toValueUbjson v) rest :=
+  Model.Ubjson.enc_dec v rest fuel hv hf
+
+/-- `Model.Ubjson.item` is the reference decoder's entry point with the fuel made explicit -/
+theorem ubjson_item_is_decode (s : Bytes) : Spec.Ubjson.decode s = Model.Ubjson.item (3 * s.length + 3) s :=
+  Model.Ubjson.decode_eq_item s
+
+/-- every integer in [-2^63, 2^63) - 'U', 'i', 'I', 'l', 'L' on either side of zero, by case split - is read back as itself -/
+theorem ubjson_int_roundtrip (i : Int) (hlo : -(2 ^ 63 : Int) ≤ i) (hhi : i < 2 ^ 63) (rest : Bytes) (fuel : Nat) :
+    Model.Ubjson.item (fuel + 1) (Model.Ubjson.writeInt i ++ rest) = .ok (.int i "") rest :=
+  Model.Ubjson.item_int fuel i rest hlo hhi
+
+/-- a length or count (written as an integer item by `put_length`) is read back exactly, for every length below 2^63 -/
+theorem ubjson_length_roundtrip (n : Nat) (h : n < 2 ^ 63) (rest : Bytes) :
+    Spec.Ubjson.length (Model.Ubjson.putLength n ++ rest) = some (n, rest) :=
+  Model.Ubjson.length_putLength n h rest
+
+/-- what the model refuses is exactly the integers UBJSON cannot express: a representable value with in-range negatives is in
+    the integer part of the domain -/
+theorem ubjson_representable_int (i : Int) : Model.Ubjson.representable (.int i) = true ↔ i < 2 ^ 63 := by
+  simp [Model.Ubjson.representable]
+
 /-! ### non-vacuity -/
 /-- "0x10000000000000000p-3" -/
 example : Model.BigFloat.render (2 ^ 64) (-3) = [48, 120, 49, 48, 48, 48, 48, 48, 48, 48, 48, 48, 48, 48, 48, 48, 48, 48, 48, 112, 45, 51] := by
@@ -94,5 +218,34 @@ example : OK sample := by
 example : encode (.arr [.int 23, .int 24, .str [97]]) = [0x83, 0x17, 0x18, 0x18, 0x61, 0x61] := by decide
 example : encodeDouble 0x3ff8000000000000 = [0xfa, 0x3f, 0xc0, 0, 0] := by decide
 example : encodeDouble 0x3ff199999999999a = [0xfb, 0x3f, 0xf1, 0x99, 0x99, 0x99, 0x99, 0x99, 0x9a] := by decide
+
+/-! MessagePack: the sample is in the domain, the model writes the bytes of the specification's examples, and the reference decoder
+    reads the sample's bytes back (computed, not assumed) -/
+example : Model.Msgpack.OKm sample := by
+  simp [sample, Model.Msgpack.OKm, Model.Msgpack.OKmList, Model.Msgpack.OKmMembers, Spec.Rfc8259.validUtf8]
+example : Model.Msgpack.encode (.arr [.int 127, .int 128, .int (-32), .int (-33), .int 65536, .str [97], .bytes [1], .null, .bool true]) =
+    [0x99, 0x7f, 0xcc, 0x80, 0xe0, 0xd0, 0xdf, 0xce, 0, 1, 0, 0, 0xa1, 0x61, 0xc4, 1, 1, 0xc0, 0xc3] := by decide
+example : Model.Msgpack.encode (.map [([97], .int (-(2 ^ 63))), ([98], .int (2 ^ 64 - 1))]) =
+    [0x82, 0xa1, 0x61, 0xd3, 0x80, 0, 0, 0, 0, 0, 0, 0, 0xa1, 0x62, 0xcf, 255, 255, 255, 255, 255, 255, 255, 255] := by decide
+example : Model.Msgpack.encodeDouble 0x3ff8000000000000 = [0xca, 0x3f, 0xc0, 0, 0] := by decide
+example : Model.Msgpack.encodeDouble 0x3ff199999999999a = [0xcb, 0x3f, 0xf1, 0x99, 0x99, 0x99, 0x99, 0x99, 0x9a] := by decide
+example : Spec.Msgpack.decode (Model.Msgpack.encode sample) = .ok (toValue sample) [] := by rfl
+
+/-! UBJSON: a sample in the domain (integers below 2^63), the bytes of small examples, and the reference decoder on the sample's bytes -/
+def sampleU : CV := .map [([97], .arr [.int 255, .int 256, .int (-1), .int (2 ^ 63 - 1), .int (-(2 ^ 63))]),
+                           ([195, 169], .str [240, 159, 152, 128]), ([98], .bytes [0, 255]), ([99], .map []), ([100], .null)]
+example : Model.Ubjson.OKu sampleU := by
+  simp [sampleU, Model.Ubjson.OKu, Model.Ubjson.OKuList, Model.Ubjson.OKuMembers, Spec.Rfc8259.validUtf8]
+example : Model.Ubjson.encode (.arr [.int 255, .int 256, .int (-128), .int (-129), .str [97], .bytes [1, 2], .null, .bool true]) =
+    [91, 35, 85, 8, 85, 255, 73, 1, 0, 105, 128, 73, 255, 127, 83, 85, 1, 97, 91, 36, 85, 35, 85, 2, 1, 2, 90, 84] := by decide
+example : Model.Ubjson.encode (.map [([97], .int 32768)]) = [123, 35, 85, 1, 85, 1, 97, 108, 0, 0, 128, 0] := by decide
+example : Model.Ubjson.representable (.arr [.int (2 ^ 63)]) = false := by decide
+/-- the entry point `decode` (fuel 3·length+3) has enough fuel for the sample: the theorem's hypotheses are dischargeable -/
+example : Spec.Ubjson.decode (Model.Ubjson.encode sampleU) = .ok (toValueUbjson sampleU) [] := by
+  have h := ubjson_roundtrip_any_fuel sampleU
+    (by simp [sampleU, Model.Ubjson.OKu, Model.Ubjson.OKuList, Model.Ubjson.OKuMembers, Spec.Rfc8259.validUtf8]) []
+    (3 * (Model.Ubjson.encode sampleU).length + 3) (by decide)
+  rw [ubjson_item_is_decode]
+  simpa using h
 
 end JV.Props.C06
